@@ -9,8 +9,10 @@ EXPLANATION = (
     'operators. Decides: (D1) the three shape predicates partition the shapes identically (evaluated on m <, =, > n): the '
     'constructor uses the A\'A operator exactly when m > n, matrix_V returns the eigenvectors directly exactly when m > n and '
     'matrix_U exactly when m <= n; the tall operator applies A then A\', the wide operator A\' then A, each with dimension '
-    'min(m, n); the derived factor multiplies by A (for U) resp. A\' (for V) and divides by the square roots of the same '
-    'eigenvalue prefix; singular values are the square roots of the eigenvalues; (D2) the cached eigenvectors are invalidated by '
+    'min(m, n); the derived factor multiplies by A (for U) resp. A\' (for V) and scales column i by g(lambda_i) where g -- the '
+    'element-wise expression extracted from the code, helpers inlined -- satisfies g(x) sqrt(x) = 1 on a magnitude grid from '
+    '1e-30 to 1e14 (no absolute threshold, right power), over the same eigenvalue prefix as the vectors; singular values equal '
+    'sqrt(lambda) on the same grid (a clamp at zero is allowed); (D2) the cached eigenvectors are invalidated by '
     'every member that re-runs the inner solver and filled only when empty (matrix_U / matrix_V always describe the most recent '
     'compute()); (D3) matrix_U(k) / matrix_V(k) clamp k to min(k, nconv) before anything is sized by it, nconv is the value '
     'returned by the inner compute(), and the inner solver is always run with the LargestAlge rule after a fresh init(). Does NOT '
@@ -77,9 +79,27 @@ def shape_predicates(ctx, rule='shape-predicates-agree'):
                     want = ('transpose', ('F', 'm_mat')) if trans else ('F', 'm_mat')
                     if left != want:
                         problems.append('%s: derived factor is %s * (...), expected %s' % (name, show(left) if left else show(t), show(want)))
-                    a = atoms(t)
-                    if ('call', 'sqrt') not in a and not any(isinstance(x, tuple) and x[0] == 'sqrt' for x in _walk(t)):
-                        problems.append('%s: derived factor is not divided by the square roots of the eigenvalues' % name)
+                    t = _inline_helpers(ctx, rec, sym(fn, others[0]['value']))
+                    sc = t[2] if t[0] == '*' and len(t) == 3 else None
+                    g = None
+                    if isinstance(sc, tuple) and sc[0] in ('/', '*') and len(sc) == 3:
+                        rw = [x for x in sc[1:] if isinstance(x, tuple) and x[0] == 'rowwise']
+                        ot = [x for x in sc[1:] if not (isinstance(x, tuple) and x[0] == 'rowwise')]
+                        if len(rw) == 1 and len(ot) == 1 and (sc[0] == '*' or sc[1][0] == 'rowwise'):
+                            g = (sc[0], ot[0])
+                    if g is None:
+                        raise AnalysisBroken('%s::%s: scaling of the derived factor not recognised: %s' % (rec, name, show(t)))
+                    bad = []
+                    for lam in GRID:
+                        try:
+                            v = _scalar(g[1], lam)
+                        except CannotEval as e:
+                            raise AnalysisBroken('%s::%s: scaling outside the scalar domain: %s' % (rec, name, e))
+                        scale = (1.0 / v if v != 0 else float('inf')) if g[0] == '/' else v
+                        if not abs(scale * lam ** 0.5 - 1.0) <= 1e-9:
+                            bad.append('%g' % lam)
+                    if bad:
+                        problems.append('%s: the derived factor is not scaled by 1/sqrt(eigenvalue) for eigenvalues %s (an absolute threshold or a different power: the factor is not normalised for matrices of that magnitude)' % (name, ', '.join(bad)))
                     heads = [x for x in _walk(t) if isinstance(x, tuple) and x[0] in ('head', 'leftCols')]
                     if not all(h[-1] == ('P', p0) for h in heads) or len(heads) < 2:
                         problems.append('%s: eigenvalue / eigenvector prefixes of different lengths' % name)
@@ -106,6 +126,85 @@ def shape_predicates(ctx, rule='shape-predicates-agree'):
             d = ini.get('m_dim')
             ok = d is not None and d[0] == 'call' and d[1] == 'min' and {show(d[2]), show(d[3])} == {'rows(mat)', 'cols(mat)'}
             ctx.check(ok, rule, tmpl.replace('Spectra::', '') + '::ctor', c.qname, 'dimension = min(rows, cols)' if ok else 'dimension is %s' % (show(d) if d else None))
+
+
+
+EPS = 2.220446049250313e-16
+
+
+def _subst(t, m):
+    if not isinstance(t, tuple):
+        return t
+    if t[0] == 'P' and t[1] in m:
+        return m[t[1]]
+    return tuple(_subst(x, m) if isinstance(x, tuple) else x for x in t)
+
+
+def _inline_helpers(ctx, rec, t, depth=0):
+    """replace calls of the class's own one-line helpers  name(this, args..)  by their returned expression"""
+    if not isinstance(t, tuple) or depth > 3:
+        return t
+    if len(t) >= 2 and t[1] == ('this',) and isinstance(t[0], str):
+        cands = [f for f in ctx.F.methods(rec) if f.name == t[0] and f.cfg]
+        if len(cands) == 1:
+            g = cands[0]
+            rets = [r for r in g.walk() if r['k'] == 'ReturnStmt']
+            if len(rets) == 1:
+                body = sym(g, rets[0]['value'])
+                m = {g.locals[pid]['name']: t[2 + i] for i, pid in enumerate(g.params) if 2 + i < len(t)}
+                return _inline_helpers(ctx, rec, _subst(body, m), depth + 1)
+    return tuple(_inline_helpers(ctx, rec, x, depth) if isinstance(x, tuple) else x for x in t)
+
+
+def _scalar(t, lam):
+    """value at eigenvalue `lam` of an element-wise expression over the inner solver's eigenvalues (views are transparent)"""
+    import math
+    if not isinstance(t, tuple):
+        raise CannotEval(repr(t))
+    op = t[0]
+    if op == 'eigenvalues':
+        return lam
+    if op in ('head', 'tail', 'transpose', 'array', 'matrix', 'segment', 'real', 'eval'):
+        return _scalar(t[1], lam)
+    if op == 'lit':
+        return float(t[1])
+    if op in ('sqrt', 'cwiseSqrt'):
+        v = _scalar(t[1], lam)
+        return math.sqrt(v) if v >= 0 else float('nan')
+    if op in ('inverse', 'cwiseInverse'):
+        v = _scalar(t[1], lam)
+        return 1.0 / v if v != 0 else float('inf')
+    if op in ('abs', 'cwiseAbs'):
+        return abs(_scalar(t[1], lam))
+    if op in ('max', 'cwiseMax', 'min', 'cwiseMin') and len(t) == 3:
+        a, b = _scalar(t[1], lam), _scalar(t[2], lam)
+        return max(a, b) if 'ax' in op else min(a, b)
+    if op == 'call':
+        if t[1] == 'epsilon':
+            return EPS
+        args = [_scalar(x, lam) for x in t[2:]]
+        if t[1] == 'pow' and len(args) == 2:
+            return args[0] ** args[1]
+        if t[1] == 'sqrt' and len(args) == 1:
+            return math.sqrt(args[0]) if args[0] >= 0 else float('nan')
+        if t[1] in ('abs', 'fabs') and len(args) == 1:
+            return abs(args[0])
+        if t[1] in ('max', 'min') and len(args) == 2:
+            return max(args) if t[1] == 'max' else min(args)
+        raise CannotEval('call %s' % t[1])
+    if op in ('+', '-', '*', '/') and len(t) == 3:
+        a, b = _scalar(t[1], lam), _scalar(t[2], lam)
+        if op == '/':
+            return a / b if b != 0 else float('inf')
+        return a + b if op == '+' else a - b if op == '-' else a * b
+    if op == 'u-':
+        return -_scalar(t[1], lam)
+    if op in ('cast', 'ctor') and len(t) >= 2:
+        return _scalar(t[-1], lam)
+    raise CannotEval(show(t))
+
+
+GRID = (1e-30, 1e-22, 1e-16, 1e-13, 1e-9, 1e-4, 1.0, 1e6, 1e14)
 
 
 def _walk(t):
@@ -143,9 +242,20 @@ def clamps(ctx, rule='clamps-and-fixed-rule'):
         ok = ok and rets == [('F', 'm_nconv')]
         ctx.check(ok, rule, 'PartialSVDSolver::compute', comp.qname, 'fresh init(), LargestAlge, nconv = returned count' if ok else 'inner solver is not run as init(); compute(LargestAlge, ..) with the count stored')
         sv = ms['singular_values']
-        r = [sym(sv, x['value']) for x in sv.walk() if x['k'] == 'ReturnStmt']
-        ok = len(r) == 1 and r[0][0] == 'cwiseSqrt' and r[0][1][0] == 'eigenvalues'
-        ctx.check(ok, rule, 'PartialSVDSolver::singular_values', sv.qname, 'sqrt of the inner eigenvalues' if ok else 'returns %s' % [show(x) for x in r])
+        r = [_inline_helpers(ctx, rec, sym(sv, x['value'])) for x in sv.walk() if x['k'] == 'ReturnStmt']
+        bad = []
+        if len(r) != 1:
+            bad.append('%d returns' % len(r))
+        else:
+            for lam in GRID + (0.0,):
+                try:
+                    v = _scalar(r[0], lam)
+                except CannotEval as e:
+                    raise AnalysisBroken('%s::singular_values outside the scalar domain: %s' % (rec, e))
+                if not abs(v - lam ** 0.5) <= 1e-12 * max(1.0, lam ** 0.5) and not (lam > 0 and abs(v / lam ** 0.5 - 1) <= 1e-12):
+                    bad.append('value %g for eigenvalue %g' % (v, lam))
+        ctx.check(not bad, rule, 'PartialSVDSolver::singular_values', sv.qname,
+                  'sqrt of the inner eigenvalues on the whole magnitude grid (a clamp at zero is allowed)' if not bad else 'returns %s: %s' % ([show(x) for x in r], '; '.join(bad[:3])))
 
 
 def run(ctx):
